@@ -1,4 +1,4 @@
-#!/bin/sh
+#!/bin/bash
 # usage: tools/confirm_seed_wt.sh <Cxx> <n>
 # Confirms a seeded defect produced by a sub-agent, in the scratch worktree /tmp/seedwt/<Cxx> (moved to
 # /repo's HEAD first): the demonstration passes without the change, fails with it, and the repository's
@@ -12,7 +12,10 @@ git checkout -q -- . ; git checkout -q --detach "$(git -C /repo rev-parse HEAD)"
 echo "worktree $WT at $(git rev-parse --short HEAD)" >> $OUT
 P=$D/patch.diff; [ -f $D/patch.rebased.diff ] && P=$D/patch.rebased.diff
 run_demo() {
-  if [ -f $D/demo.scm ]; then
+  if [ -f $D/run_demo.sh ]; then
+    bash $D/run_demo.sh $WT 2>&1 | tail -25 | cut -c1-400
+    echo "[run_demo.sh exit status: ${PIPESTATUS[0]:-?}]"
+  elif [ -f $D/demo.scm ]; then
     cargo build --offline -q -j 8 2>&1 | grep -E "^error" -A5
     ( cd $D && timeout 300 $WT/target/debug/steel demo.scm 2>&1 | tail -15 | cut -c1-400 )
     echo "[exit status of the last pipeline stage is not the demo's]"
